@@ -159,9 +159,18 @@ def run_program(src, pair, prog, lazy, chunk_K=None, twin=False):
                 pool.append(u)
                 return len(u)
             r = outcome(do)
+        elif name == "assign":
+            f = m[op["f"]]
+
+            def do():
+                n = len(t)
+                vals = [tk.fresh_value(kinds[f], op["_k"], j + 1) for j in range(n)]
+                setattr(t, f, tk.to_array(kinds[f], vals))
+                return len(t)
+            r = outcome(do)
         elif name == "concat":
             u0 = pool[op["u"] - 1]
-            if twin and op["u"] == 1 and first["op"] == "read":
+            if twin and op["u"] == 1 and first["op"] == "read" and not any(q["op"] == "assign" and q["t"] == 1 for q in prog[1:prog.index(op)]):
                 # the same entries read through a second reader object (the same file opened twice): an equal table of another lazy class
                 u0 = tk.open_table(src.fmt, src.data, lazy).read()
 
@@ -209,7 +218,7 @@ def _proj_scalar(kind, v):
 def annotate_replace_counters(prog):
     k = 0
     for op in prog:
-        if op["op"] == "replace":
+        if op["op"] in ("replace", "assign"):
             k += 1
             op["_k"] = k
     return prog
